@@ -299,11 +299,23 @@ theorem code_facts_agree :
 
 /-- the only length limit on either side is the StreamReader's (asyncio default, no `limit` passed - see above): every
     line of a message of the property's range (1..4095 bytes), and of any message up to 32767 bytes, fits -/
-theorem limits_admit_property_range (m : Bytes) (h : m.length ≤ 32767) :
+theorem limits_cover_property_range (m : Bytes) (h : m.length ≤ 32767) :
     (enc m).length ≤ Gen.C19Lines.defaultLimit := by
   rw [enc_length]
   have : Gen.C19Lines.defaultLimit = 65536 := by decide
   omega
+
+/-- tolerant decoding, as `strip()` + `unhexlify` do it: hex digits in either case (any mix), surrounded by any ASCII
+    whitespace (blanks, tabs, the `\r` of a CRLF line ending) decode to the same message as the canonical spelling -/
+theorem decode_tolerant (m : Bytes) (pre ds post : Bytes) (hds : ds.map lowerB = hexB m)
+    (hpre : ∀ x ∈ pre, isWs x = true) (hpost : ∀ x ∈ post, isWs x = true) :
+    decodeLine (pre ++ ds ++ post) = .msg m := by
+  obtain ⟨h1, h2⟩ := unhexB_anycase m ds hds
+  unfold decodeLine
+  rw [strip_padded pre ds post hpre hpost h2, h1]
+
+example : decodeLine ([0x20, 0x09] ++ [0x33, 0x45, 0x66, 0x46] ++ [0x20, 0x0D]) = .msg [0x3e, 0xff] :=
+  decode_tolerant [0x3e, 0xff] _ _ _ (by decide) (by decide) (by decide)
 
 /-! ### the server loop as a whole execution (`srvLoop`, `srvFeed`, `srvEof`) -/
 
